@@ -427,15 +427,10 @@ class World:
                     e = self.keys[r[1]].pubkey.encrypt(e, sessionkey=sk, cipher=S(alg), **self.enc_kwargs(r[1]))
         return e
 
-    def impl_decrypt(self, blob, r):
-        """outcome of decrypting `blob` (bytes or armored str) as recipient r with the implementation:
-        ('ok', canonical plaintext) | ('raise', exception name, 'parse' | 'decrypt')"""
+    def impl_decrypt_obj(self, em, r):
+        """one decrypt call on an already parsed PGPMessage OBJECT (the object may have been used before)"""
         with warnings.catch_warnings():
             warnings.simplefilter('ignore')
-            try:
-                em = self.pgpy.PGPMessage.from_blob(blob)
-            except Exception as ex:
-                return ('raise', type(ex).__name__, 'parse')
             try:
                 if r[0] == 'P':
                     d = em.decrypt(r[1])
@@ -447,9 +442,20 @@ class World:
             except Exception as ex:
                 return ('raise', type(ex).__name__, 'decrypt')
 
+    def impl_decrypt(self, blob, r):
+        """outcome of decrypting `blob` (bytes or armored str) as recipient r with the implementation, on a FRESH object:
+        ('ok', canonical plaintext) | ('raise', exception name, 'parse' | 'decrypt')"""
+        with warnings.catch_warnings():
+            warnings.simplefilter('ignore')
+            try:
+                em = self.pgpy.PGPMessage.from_blob(blob)
+            except Exception as ex:
+                return ('raise', type(ex).__name__, 'parse')
+        return self.impl_decrypt_obj(em, r)
+
     def model_decrypt(self, raw, r):
         if r[0] == 'P':
-            return self.d.call('dec_pass', hx(raw), hx(r[1].encode('utf-8')))
+            return self.d.call('dec_pass', hx(raw), hx(r[1] if isinstance(r[1], bytes) else r[1].encode('utf-8')))
         return self.d.call('dec_key', hx(raw), keydesc(self.keys[r[1]]))
 
 
@@ -466,6 +472,7 @@ def run(ctx):
         unit_suites(ctx, w)
         decryptor_suite(ctx, w)
         sessionkey_length_suite(ctx, w)
+        ecdh_point_suite(ctx, w)
         encryptor_suite(ctx, w)
         ctx.notes.append('oracle calls: %s' % dict(sorted(w.orc.calls.items())))
     finally:
@@ -849,6 +856,47 @@ def decryptor_suite(ctx, w):
                 ctx.fail('roundtrip', 'caller-supplied session key does not decrypt the data packet', case0)
 
 
+POINT_OCTETS = {'ed25519': 33, 'ed25519b': 33, 'p256': 65, 'p384': 97, 'p521': 133, 'secp256k1': 65}
+
+
+def ecdh_point_suite(ctx, w):
+    """the ephemeral public key of every ECDH PKESK: RFC 6637 section 6 fixed-width encoding (04 || X || Y with both coordinates at
+    the full field width -- 66 octets for P-521, whose 521 bits are not a multiple of 8 -- or 40 || X), MPI bit count accordingly;
+    each message through the independent decryptor and through PGPy's own re-parse + decrypt.  Coordinates with leading zero octets
+    are drawn with probability 1/256 per coordinate (about 3 in 4 for the top octet of P-521 under a floor division), hence several draws"""
+    pgpy, d = w.pgpy, w.d
+    from .c04 import walk
+    with warnings.catch_warnings():
+        warnings.simplefilter('ignore')
+        m = pgpy.PGPMessage.new(b'ephemeral point', compression=w.Z.Uncompressed)
+    inner = bytes(m.__bytes__())
+    want = canon_plain(m)
+    for kn, width in POINT_OCTETS.items():
+        if kn not in w.keys:
+            continue
+        for i in range(ctx.n(8, 60) if kn == 'p521' else ctx.n(2, 12)):
+            e = w.impl_encrypt(m, [('K', kn)], 7, None)
+            raw = bytes(e.__bytes__())
+            pk = [p for p in walk(raw) if p[0] == 1][0]
+            body = raw[pk[2]:pk[3]]
+            bits = int.from_bytes(body[10:12], 'big')
+            nbytes = (bits + 7) // 8
+            point = body[12:12 + nbytes]
+            case = {'op': 'roundtrip', 'recips': [['K', kn]], 'recipient': ['K', kn], 'blob': raw.hex(), 'want': want, 'point': point.hex(), 'mpi_bits': bits}
+            ctx.case('ecdh-point', (kn, i, point), sample={'key': kn, 'point_octets': len(point), 'mpi_bits': bits})
+            lead = 0x40 if width == 33 else 0x04
+            if len(point) != width or point[:1] != bytes([lead]) or bits != 8 * (width - 1) + lead.bit_length():
+                ctx.fail('ecdh-point', 'ephemeral point is not in the fixed-width RFC 6637 encoding (%d octets expected)' % width, case)
+            if 12 + nbytes + 1 + body[12 + nbytes] != len(body):
+                ctx.fail('ecdh-point', 'PKESK body is not MPI(point) || len(C) || C', case)
+            mo = w.model_decrypt(raw, ('K', kn))
+            if not (mo.startswith('ok ') and unhx(mo[3:]) == inner):
+                ctx.fail('ecdh-point', 'independent decryptor cannot read the ECDH message: ' + mo[:60], case)
+            o = w.impl_decrypt(raw, ('K', kn))
+            if o != ('ok', want):
+                ctx.fail('ecdh-point', 'PGPy does not decrypt its own ECDH message', dict(case, impl=repr(o)[:200]))
+
+
 def sessionkey_length_suite(ctx, w):
     """caller-supplied session keys whose length is not the key size of the cipher: a key recipient must be refused at
     encryption time (PGPEncryptionError; the model's pkesk_encrypt refuses too); a passphrase recipient carries the key
@@ -1034,6 +1082,19 @@ def replay(ctx, case):
             if not case.get('blob') or case.get('want') is None:
                 return True
             rs = [case['recipient']] if case.get('recipient') else case.get('recips', [])
+            if case.get('point') is not None and rs and rs[0][0] == 'K' and len(case['point']) // 2 != POINT_OCTETS.get(rs[0][1]):
+                # the recorded octets came from the implementation under test at that time: produce fresh ones
+                with warnings.catch_warnings():
+                    warnings.simplefilter('ignore')
+                    m = w.pgpy.PGPMessage.new(b'ephemeral point', compression=w.Z.Uncompressed)
+                from .c04 import walk
+                for _ in range(40):
+                    raw = bytes(w.impl_encrypt(m, [tuple(rs[0])], 7, None).__bytes__())
+                    pk = [p for p in walk(raw) if p[0] == 1][0]
+                    bits = int.from_bytes(raw[pk[2] + 10:pk[2] + 12], 'big')
+                    if (bits + 7) // 8 != POINT_OCTETS[rs[0][1]]:
+                        return True
+                return False
             return any(w.impl_decrypt(bytes.fromhex(case['blob']), tuple(r)) != ('ok', case['want']) for r in rs)
         if op == 'seipd_gate':
             a, key, ct = case['alg'], bytes.fromhex(case['key']), bytes.fromhex(case['ct'])
